@@ -645,6 +645,104 @@ def shrink_hvec(t, pt):
     return best
 
 
+# ------------------------------------------------------------------------------------------------------------
+# make_prediction: several tracker configurations with different weights in ONE process
+
+def parse_mp(out):
+    """-> (list of mpspec lines, list of records)"""
+    specs = []
+    recs = []
+    for line in out.split("\n"):
+        if line.startswith("mpspec "):
+            specs.append(line)
+        elif line.startswith("mp "):
+            toks = line.split()
+            r = {"cfg": int(toks[1]), "kind": toks[2], "run": len(specs) - 1}
+            for kv in toks[3:]:
+                k, v = kv.split("=", 1)
+                if k in ("wp", "wv"):
+                    r[k + "b"] = int(v)
+                    r[k] = unbits([int(v)])[0]
+                elif k == "frame":
+                    r["frame"] = int(v)
+                elif k == "got" and v.startswith("X"):
+                    r["gotb"] = None
+                    r["got_err"] = v
+                else:
+                    r[k + "b"] = ints(v)
+                    r[k] = unbits(r[k + "b"])
+            recs.append(r)
+    return specs, recs
+
+
+def mp_failures(recs):
+    """the box returned by make_prediction / SortTrack::predicted_bbox must be, bit for bit, the one of the box
+    filter built with the weights of ITS OWN tracker (value comparison: -0.0 == 0.0)"""
+    bad = []
+    unassoc = 0
+    for r in recs:
+        if r["gotb"] is None:
+            if r.get("got_err", "").startswith("X:panic"):
+                bad.append((r, "panicked"))
+            else:
+                unassoc += 1
+            continue
+        if any(not (g == e) for g, e in zip(r["got"], r["ref"])):
+            bad.append((r, "differs"))
+    return bad, unassoc
+
+
+def mp_cfgs(spec):
+    return spec[len("mpspec "):].strip().split("/")
+
+
+def mp_trunc(cfg, frames):
+    kind, wp, wv, obs = cfg.split(":")
+    return ":".join([kind, wp, wv, "|".join(obs.split("|")[:frames])])
+
+
+def shrink_mp(spec, r):
+    """smallest process-level sequence: one earlier configuration (1 frame) + the failing one (fewest frames)"""
+    cfgs = mp_cfgs(spec)
+    j = r["cfg"]
+    def fails(line):
+        rc, out, err = run_harness_replay(line)
+        _, recs = parse_mp(out)
+        bad, _ = mp_failures(recs)
+        return bad[0] if bad else None
+    cands = []
+    for i in list(range(j)):
+        for fr in (2, 3, r["frame"] + 1):
+            cands.append("mpspec " + mp_trunc(cfgs[i], 1) + "/" + mp_trunc(cfgs[j], fr))
+    cands.append("mpspec " + mp_trunc(cfgs[j], r["frame"] + 1))
+    cands.append("mpspec " + "/".join(cfgs[:j] + [mp_trunc(cfgs[j], r["frame"] + 1)]))
+    for line in cands[:40]:
+        b = fails(line)
+        if b is not None:
+            return line, b
+    return None
+
+
+def run_harness_replay(line):
+    path = os.path.join(vlib.ALT or vlib.CACHE, "c07_replay_%d.txt" % os.getpid())
+    with open(path, "w") as fh:
+        fh.write(line + "\n")
+    r = run_harness(["replay", "--file", path])
+    os.remove(path)
+    return r
+
+
+def mp_describe(line):
+    out = []
+    for c in mp_cfgs(line):
+        kind, wp, wv, obs = c.split(":")
+        out.append({"tracker": {"attrs": "custom TrackAttributesKalmanPrediction implementer", "sort": "Sort (IoU)",
+                                "sortm": "Sort (Mahalanobis)", "vsort": "VisualSort (IoU, no features)"}.get(kind, kind),
+                    "position_weight": unbits([int(wp)])[0], "velocity_weight": unbits([int(wv)])[0],
+                    "observations [xc, yc, angle, aspect, height]": [unbits(ints(o)) for o in obs.split("|")]})
+    return out
+
+
 def run_harness(args):
     rc, out, err = vlib.harness_run("kalman", args)
     return rc, out, err
@@ -714,6 +812,15 @@ def run(chk):
     trajs, _ = parse_output(out)
     rc2, out2, err2 = run_harness(["costs", "--seed", chk.seed, "--n", 200 if chk.tier == "quick" else 5000])
     _, costs = parse_output(out2)
+    mp_specs, mp_recs = [], []
+    for k in range(3 if chk.tier == "quick" else 12):
+        # every run is ONE process with 8 tracker configurations of different weights (order varies with the seed)
+        rcm, outm, errm = run_harness(["mkpred", "--seed", int(chk.seed) * 100 + k, "--n", 8])
+        sp, rc_ = parse_mp(outm)
+        for r in rc_:
+            r["run"] = len(mp_specs)
+        mp_specs += sp
+        mp_recs += rc_
     tracks = tracks_of(trajs)
     nstates = sum(len(t["states"]) for t in tracks)
     chk.log("implementation ran %d histories (%d tracks, %d states), %d cost probes" % (len(trajs), len(tracks), nstates, len(costs)))
@@ -784,6 +891,31 @@ def run(chk):
                            "Vec2DKalmanFilter: %s of element %s at step %s differs from the stand-alone Point2DKalmanFilter on the same state / measurements"
                            % (rep["differs_in"], rep["point"], rep["step"]), rep))
 
+    # make_prediction with the weights of its own tracker
+    mp_bad, mp_unassoc = mp_failures(mp_recs)
+    if mp_bad:
+        r, why = mp_bad[0]
+        spec = mp_specs[r["run"]]
+        rep = {"mpspec": spec, "configuration": r["cfg"], "frame": r["frame"], "tracker": r["kind"],
+               "weights": [r["wp"], r["wv"]], "returned": r.get("got"), "own_filter": r.get("ref"),
+               "failing_records": len(mp_bad)}
+        try:
+            sh = shrink_mp(spec, r)
+        except Exception as e:      # noqa: BLE001
+            chk.log("make_prediction shrink failed: %r" % (e,))
+            sh = None
+        if sh is not None:
+            line, (r2, _) = sh
+            rep.update({"mpspec": line, "configuration": r2["cfg"], "frame": r2["frame"], "tracker": r2["kind"],
+                        "weights": [r2["wp"], r2["wv"]], "returned": r2.get("got"), "own_filter": r2.get("ref"),
+                        "original_sequence": spec[:1500]})
+        rep["sequence_in_one_process"] = mp_describe(rep["mpspec"])
+        rep["replay_cmd"] = "./check C07 --replay <this file>"
+        violations.append(("C07:make-prediction-weights",
+                           "make_prediction (%s, weights %r, %r) %s at frame %d: returned %r, the box filter built with these weights gives %r"
+                           % (rep["tracker"], rep["weights"][0], rep["weights"][1], "panicked" if why == "panicked" else "differs",
+                              rep["frame"], rep["returned"], rep["own_filter"]), rep))
+
     # cost conversion
     chi2 = [Fraction(x) for x in ["3.8415", "5.9915", "7.8147", "9.4877", "11.070", "12.592", "14.067", "15.507", "16.919"]]
     by, ident_fail = cost_checks(costs, chi2)
@@ -804,6 +936,7 @@ def run(chk):
     if os.path.exists(model_vo):
         try:
             model_stage(chk, tracks, by, stats, wr, disagreements)
+            mp_model_stage(mp_specs, mp_recs, stats, wr, disagreements)
         except Exception as e:      # noqa: BLE001 - the oracle's verdict below must be delivered whatever happens here
             import traceback
             chk.broken.append("model evaluation failed: %s" % (traceback.format_exc()[-1500:] if not isinstance(e, RuntimeError) else str(e)[-1500:]))
@@ -830,7 +963,7 @@ def run(chk):
         "the noise multipliers 2, 10, 1e-2, 1e-5, 1e-1 are part of the specification and pinned in Model/Kalman.v",
     ]
     chk.coverage.update({
-        "evaluations": len(tracks) + len(costs),
+        "evaluations": len(tracks) + len(costs) + len({(r["run"], r["cfg"]) for r in mp_recs}),
         "histories": len(trajs), "tracks": len(tracks), "states_checked": nstates, "cost_probes": len(costs),
         "distinct_nontrivial": len(nontrivial),
         "rule": "histories of 1-400 predict/update operations (tracker pattern predict+update, missed detections, random "
@@ -841,7 +974,7 @@ def run(chk):
                 "position 1/80..1/4 x velocity 1/640..1/8. non-trivial = a track with at least one update whose measurements "
                 "are not all equal to the first one; distinct by (history, point). EVERY state of every track is checked by "
                 "the oracle; the model is compared on mean and covariance at ~20 steps per track (whole run), one exact step "
-                "and one distance from the implementation's own state at ~5 of them; cost: all f32 neighbours (+-4 ulp) of every CHI2INV95 entry and of "
+                "and one distance from the implementation's own state at ~5 of them; make_prediction: 3 (thorough 12) process runs of 8 tracker configurations (custom trait implementer, Sort IoU/Mahalanobis, VisualSort) with six different weight pairs in seed-dependent order, 3-10 frames of a moving growing box each, returned boxes vs the box filter of the same weights bit for bit and vs the model; cost: all f32 neighbours (+-4 ulp) of every CHI2INV95 entry and of "
                 "100, offsets 1e-6..0.5, a 1/8 grid on [0,20] and random d up to 1e5",
         "samples": [t["spec"][:300] for t in list(trajs.values())[:3]],
         "input_distribution": dict(hist),
@@ -852,6 +985,10 @@ def run(chk):
         "model": stats, "model_worst_error_over_allowance": wr,
         "model_vs_impl_disagreements": len(disagreements),
         "cost_identity_failures": len(ident_fail),
+        "make_prediction": {"process_runs": len(mp_specs), "configurations": len({(r["run"], r["cfg"]) for r in mp_recs}),
+                            "frames_compared_bitwise": len(mp_recs) - mp_unassoc, "not_one_track": mp_unassoc,
+                            "failures": len(mp_bad),
+                            "first_weights_are_defaults_in_runs": sum(1 for sp in mp_specs if mp_cfgs(sp)[0].split(":")[1:3] == ["1028443341", "1003277517"])},
         "deep_shrink_streams": sum(1 for t in trajs.values() if t.get("kind") == "deep-shrink"),
         "tolerances": {"whole_run_mean": TOL_MEAN, "whole_run_cov": TOL_COV, "exact_short_run_mean": TOLQ_MEAN,
                        "exact_short_run_cov": TOLQ_COV, "one_step": "%g * 2^-24 * sum of magnitudes" % ULPS},
@@ -899,6 +1036,47 @@ def run(chk):
             rep["correspondence_cases"] = disagreements[:5]
             what += " model and implementation differ on %d comparisons" % len(disagreements)
         chk.violation("C07:tie-broken", what, rep, found_input=False)
+
+
+def mp_model_stage(mp_specs, mp_recs, stats, wr, disagreements):
+    """the boxes returned by the trackers vs the binary64 model run initiate; (predict; update z_i)* with the weights
+    of that tracker"""
+    groups = {}
+    for r in mp_recs:
+        groups.setdefault((r["run"], r["cfg"]), []).append(r)
+    exprs, meta = [], []
+    for key, rs in sorted(groups.items()):
+        rs.sort(key=lambda r: r["frame"])
+        obs = [r["obs"] for r in rs]
+        ops = []
+        for z in obs:
+            ops += [None, z]
+        tr = {"ty": "box", "wp": rs[0]["wp"], "wv": rs[0]["wv"]}
+        steps = [2 * (i + 1) for i in range(len(obs))]
+        exprs.append("f_case %s %s %s %s%%nat %s" % (filt(tr, "F"), ql(obs[0]), ops_lit(ops), coq_list([str(k) for k in steps]),
+                                                    coq_list([ql(obs[0])] * len(steps))))
+        meta.append((key, rs, steps))
+    if not exprs:
+        return
+    vals = vlib.coq_eval(PREAMBLE, exprs, shard_size=max(1, len(exprs) // 16 + 1), tag="c07mp")
+    stats["make_prediction_frames_vs_model"] = 0
+    for (key, rs, steps), v in zip(meta, vals):
+        model = decode_case(v, 5, 2 * len(rs) + 1, steps, "F")
+        tr = {"ty": "box", "n": 5}
+        for r, k in zip(rs, steps):
+            if r["gotb"] is None:
+                continue
+            mm = model[k][0]
+            sc = mean_scales(tr, mm)
+            stats["make_prediction_frames_vs_model"] += 1
+            for i in range(5):
+                ratio = abs(r["got"][i] - mm[i]) / (TOL_MEAN * sc[i])
+                wr["mp_mean"] = max(wr.get("mp_mean", 0.0), ratio)
+                if not ratio <= 1.0:
+                    disagreements.append({"what": "make_prediction (%s, weights %r, %r) frame %d entry %d: returned %r, model %r"
+                                                  % (r["kind"], r["wp"], r["wv"], r["frame"], i, r["got"][i], mm[i]),
+                                          "mpspec": mp_specs[r["run"]][:1500], "tid": ("mp",) + key})
+                    break
 
 
 def model_stage(chk, tracks, cost_by, stats, wr, disagreements):
@@ -1062,6 +1240,14 @@ def replay(chk, path):
             print("%s: d=%r direct=%r inverted=%r expected inverted=%r" % (f[0], f[2], f[3], f[4], f[5]))
         print("REPRODUCED" if ident_fail else "not reproduced")
         return 1 if ident_fail else 0
+    if "mpspec" in rep and "spec" not in rep:
+        rc, out, err = run_harness_replay(rep["mpspec"])
+        _, recs = parse_mp(out)
+        mb, _ = mp_failures(recs)
+        for r, why in mb:
+            print("configuration %d (%s, weights %r %r) frame %d: returned %r, own filter %r" % (r["cfg"], r["kind"], r["wp"], r["wv"], r["frame"], r.get("got"), r.get("ref")))
+        print("REPRODUCED" if mb else "not reproduced")
+        return 1 if mb else 0
     spec = rep.get("spec")
     if not spec:
         print("nothing to replay (no failing input was found): ", rep.get("what"))
